@@ -182,6 +182,8 @@ static void real_run(int run, vt::rng& g)
         d[0] = T(1);
         d[1] = x > T() ? T(0.5) / std::sqrt(x) : T(1e10);
         d[2] = T(2) * x;
+        // a region that the integrand cuts away and in which the map has nothing to report: all densities vanish there
+        if (x < T(0.03)) { d[0] = T(); d[1] = T(); d[2] = T(); }
         return T(1);
     };
     long poison_call = (run % 4 == 1) ? (long) g.range(0, 5 * N) : -1; // one evaluation is +infinity in some runs
@@ -190,6 +192,7 @@ static void real_run(int run, vt::rng& g)
         if (calls_done++ == poison_call) return std::numeric_limits<T>::infinity();
         if (it == zero_iter) return T();
         T x = p.coordinates()[0];
+        if (x < T(0.03)) return T();
         return variant == 0 ? x * x : (variant == 1 ? T(1) / (T(0.01) + x) : std::exp(-T(50) * (x - T(0.3)) * (x - T(0.3))));
     };
     std::vector<T> w0{T(g.range(0, 3)), T(g.range(1, 3)), T(g.range(0, 3))};
@@ -221,7 +224,47 @@ static void real_run(int run, vt::rng& g)
             .i("fin", all_finite(v) && all_finite(r.adjustment_data()) ? 1 : 0).i("sum", vt::mono_scaled(sum, SC)).i("sumEps", sum_dev_eps(v)).i("floor", vt::mono_scaled(fl, SC))
             .i("dataAllZero", dz ? 1 : 0).a("dataPos", dpos).i("prevId", prevId).i("id", id).emit();
         prevId = id;
+        // the weights of the next iteration (resp. those the checkpoint proposes after the last one) are the refinement of this result
+        auto const& next = k + 1 != res.results().size() ? res.results()[k + 1].channel_weights() : res.channel_weights();
+        vt::ev("NextWeights").i("run", run).i("k", (long long) k).i("usedId", vt::ids().id(vt::hexvec(next)))
+            .i("refId", vt::ids().id(vt::hexvec(hep::multi_channel_refine_weights(v, r.adjustment_data(), m, beta)))).emit();
     }
+}
+
+// an iteration whose values cancel exactly (estimate 0) although its squares do not vanish: the weights are refined like after any other.
+// Two channels with densities 3/2, 1/2 on the lower and 1/2, 3/2 on the upper half: with weights 1/2, 1/2 every point has weight 1.
+template <typename T>
+static void cancel_run(int run, vt::rng& g)
+{
+    long calls = 0;
+    auto map = [](std::size_t ch, std::vector<T> const& r, std::vector<T>& c, std::vector<std::size_t> const&, std::vector<T>& d, hep::multi_channel_map) {
+        T u = r[0];
+        // inverse CDFs of the two piecewise constant densities
+        if (ch == 0) c[0] = u < T(0.75) ? u / T(1.5) : T(0.5) + (u - T(0.75)) / T(0.5);
+        else c[0] = u < T(0.25) ? u / T(0.5) : T(0.5) + (u - T(0.25)) / T(1.5);
+        bool lower = c[0] < T(0.5);
+        d[0] = lower ? T(1.5) : T(0.5);
+        d[1] = lower ? T(0.5) : T(1.5);
+        return T(1);
+    };
+    auto fn = [&](hep::multi_channel_point<T> const& p) { return (calls++ % 2 ? T(-1) : T(1)) * (p.coordinates()[0] < T(0.5) ? T(2) : T(1)); };
+    T m = T(), beta = T(g.range(25, 100)) / T(100);
+    auto chk = hep::make_multi_channel_chkpt<T>(std::vector<T>{T(1), T(1)}, m, beta);
+    using C = decltype(chk);
+    // values +-2 / +-1 alternate in sign call by call: they cancel exactly when both halves receive an even number of ... not in general -
+    // so the number of calls is searched for which the sum is exactly zero
+    for (std::size_t N = 40; N != 400; N += 2)
+    {
+        calls = 0;
+        auto res = hep::multi_channel(hep::make_multi_channel_integrand<T>(fn, 1, map, 1, 2), std::vector<std::size_t>{N}, chk, hep::callback<C>(hep::callback_mode::silent));
+        auto const& r = res.results().back();
+        if (r.sum() != T() || r.adjustment_data()[0] == r.adjustment_data()[1]) continue;
+        auto ref = hep::multi_channel_refine_weights(r.channel_weights(), r.adjustment_data(), m, beta);
+        vt::ev("NextWeights").i("run", run).i("k", 0).i("usedId", vt::ids().id(vt::hexvec(res.channel_weights()))).i("refId", vt::ids().id(vt::hexvec(ref)))
+            .i("sumZero", 1).i("moved", vt::ids().id(vt::hexvec(ref)) != vt::ids().id(vt::hexvec(r.channel_weights())) ? 1 : 0).emit();
+        return;
+    }
+    vt::ev("NextWeights").i("run", run).i("k", 0).i("usedId", 0).i("refId", 0).i("sumZero", 0).i("moved", 0).emit(); // no cancelling sample found
 }
 
 int main(int argc, char** argv)
@@ -244,6 +287,7 @@ int main(int argc, char** argv)
     any_cases<float>(thorough ? 600 : 150, g);
     any_cases<double>(thorough ? 600 : 150, g);
     any_cases<long double>(thorough ? 600 : 150, g);
+    cancel_run<float>(9000, g); cancel_run<double>(9001, g); cancel_run<long double>(9002, g);
     for (int run = 0; run != (thorough ? 30 : 9); ++run)
     {
         if (run % 3 == 0) real_run<float>(run, g); else if (run % 3 == 1) real_run<double>(run, g); else real_run<long double>(run, g);
